@@ -110,6 +110,18 @@ pub fn keyword_chimeras() -> Vec<String> {
             }
         }
     }
+    // a keyword is not a header: the numeric-suffix rule (`1` may be added or omitted) does not apply
+    for a in kws {
+        let head: String = a.chars().take_while(|c| c.is_ascii_uppercase()).collect();
+        for base in [head, a.to_ascii_uppercase()] {
+            for sfx in ["1", "01", "2", "0", "_1", "_"] {
+                let c = format!("{base}{sfx}");
+                if c.len() <= 12 && !v.contains(&c) {
+                    v.push(c);
+                }
+            }
+        }
+    }
     let lower: Vec<String> = v.iter().map(|s| s.to_ascii_lowercase()).collect();
     v.extend(lower);
     v
